@@ -129,8 +129,15 @@ def flat_terms(x):
 
 
 # ---------------------------------------------------------------- (a) no hidden input
+SEED_OVERRIDE = [None]         # when set, every top-level seed of the scenario is this value (0 and NumPy zeros are seeds too)
+
+
+def _sd(default):
+    return default if SEED_OVERRIDE[0] is None else SEED_OVERRIDE[0]
+
+
 def scen_frame(kind):
-    fr = FR.Frame(fchans=3, tchans=2, df=2.0, dt=4.0, fch1=4096.0, seed=11)
+    fr = FR.Frame(fchans=3, tchans=2, df=2.0, dt=4.0, fch1=4096.0, seed=_sd(11))
     if kind == 'chi2':
         return [fr.add_noise(Sym(z3.Real('x_mean'))), fr.data]
     if kind == 'gaussian':
@@ -143,26 +150,26 @@ def scen_frame(kind):
         nt = 'chi2' if 'chi2' in kind else 'gaussian'
         return [fr.add_noise_from_obs(arrs[0], arrs[1], arrs[2] if 'min' in kind else None, share_index=share, noise_type=nt), fr.data]
     if kind == 'rfi_path':
-        p = paths.simple_rfi_path(Sym(z3.Real('f0')), Sym(z3.Real('d')), Sym(z3.Real('spread')), spread_type='normal', rfi_type='random_walk', seed=5)
+        p = paths.simple_rfi_path(Sym(z3.Real('f0')), Sym(z3.Real('d')), Sym(z3.Real('spread')), spread_type='normal', rfi_type='random_walk', seed=_sd(5))
         return [p(npx.sarr([Sym(z3.Real('t0')), Sym(z3.Real('t1'))]))]
     if kind == 'pulse_profile':
-        prof = t_profiles.periodic_gaussian_t_profile(Sym(z3.Real('pw')), 10.0, phase=Sym(RV(1.0)), pulse_offset_width=Sym(z3.Real('ow')), pnum=2, seed=3)
+        prof = t_profiles.periodic_gaussian_t_profile(Sym(z3.Real('pw')), 10.0, phase=Sym(RV(1.0)), pulse_offset_width=Sym(z3.Real('ow')), pnum=2, seed=_sd(3))
         return [prof(np.array([0.0, 7.5]))]
     raise KeyError(kind)
 
 
 def scen_voltage(kind):
     if kind == 'stream':
-        s = DS.DataStream(sample_rate=Sym(z3.Real('sr')), seed=21)
+        s = DS.DataStream(sample_rate=Sym(z3.Real('sr')), seed=_sd(21))
         s.add_noise(0, 1)
         return [s.get_samples(2), s.get_samples(1)]
     if kind == 'antenna':
-        a = A.Antenna(sample_rate=Sym(z3.Real('sr')), num_pols=2, seed=22)
+        a = A.Antenna(sample_rate=Sym(z3.Real('sr')), num_pols=2, seed=_sd(22))
         for st in a.streams:
             st.add_noise(0, 1)
         return [a.get_samples(2)]
     if kind == 'array':
-        arr = A.MultiAntennaArray(2, sample_rate=Sym(z3.Real('sr')), num_pols=2, delays=[0, 1], seed=23)
+        arr = A.MultiAntennaArray(2, sample_rate=Sym(z3.Real('sr')), num_pols=2, delays=[0, 1], seed=_sd(23))
         for ant in arr.antennas:
             for st in ant.streams:
                 st.add_noise(0, 1)
@@ -175,7 +182,7 @@ def scen_voltage(kind):
 
         class SmallFactor:
             pass
-        out = fb.estimate_channelized_stds(factor=3, seed=31)
+        out = fb.estimate_channelized_stds(factor=3, seed=_sd(31))
         return [out[0] * out[0], out[1] * out[1]]
     raise KeyError(kind)
 
@@ -184,9 +191,11 @@ FRAME_SCEN = ('chi2', 'gaussian', 'truncated', 'obs_chi2_share', 'obs_gauss_shar
 VOLT_SCEN = ('stream', 'antenna', 'array', 'channelized_stds')
 
 
-def job_no_hidden_input(group, kind):
+def job_no_hidden_input(group, kind, seed=None):
+    """seed: None (the scenario's own non-zero seeds), 0 or 'np0' (numpy.int64(0)) for every top-level seed"""
     recs = []
-    tag = f"C12:seeded:{group}:{kind}"
+    tag = f"C12:seeded:{group}:{kind}" + ('' if seed is None else f":seed={seed}")
+    SEED_OVERRIDE[0] = None if seed is None else (0 if seed == 0 else np.int64(0))
     del ENTROPY[:]
     px = proxy()
 
@@ -214,13 +223,13 @@ def job_no_hidden_input(group, kind):
     for li, leaf in enumerate(leaves):
         if leaf.kind == 'exc':
             recs.append(q(f"{tag}:leaf{li}", 'sat', detail=repr(leaf.value)))
-            recs.append(cex('C12:seeded:raise', f'{kind}: raised {leaf.value!r}', dict(fn='seeded', group=group, kind=kind), name=f"{tag}:leaf{li}"))
+            recs.append(cex('C12:seeded:raise', f'{kind}: raised {leaf.value!r}', dict(fn='seeded', group=group, kind=kind, seed=seed), name=f"{tag}:leaf{li}"))
             continue
         terms = flat_terms(leaf.value)
         r, m = depends_on_entropy(terms, pre + leaf.pc + leaf.side)
         recs.append(q(f"{tag}:leaf{li}", r, terms=len(terms)))
         if r == 'sat':
-            recs.append(cex(f'C12:hidden-entropy:{kind}', f'{kind}: a fully seeded scenario draws from an unseeded generator / the wall clock', dict(fn='seeded', group=group, kind=kind), name=f"{tag}:leaf{li}"))
+            recs.append(cex(f'C12:hidden-entropy:{kind}', f'{kind}: a fully seeded scenario (seed {seed if seed is not None else "non-zero"}) draws from an unseeded generator / the wall clock', dict(fn='seeded', group=group, kind=kind, seed=seed), name=f"{tag}:leaf{li}"))
     # twin: an UNSEEDED frame does depend on entropy (the detector works)
     if kind == 'chi2':
         del ENTROPY[:]
@@ -669,10 +678,12 @@ def replay_seeded(p):
     """run the scenario twice in fresh generators with the same seeds on the real code: outputs must be identical"""
     import setigen as stg
     outs = []
+    sv = p.get('seed')
+    sd = (lambda d: d) if sv is None else ((lambda d: 0) if sv == 0 else (lambda d: np.int64(0)))
     for rep in range(2):
         np.random.seed(rep)      # perturb the legacy global state between repetitions
         if p['group'] == 'frame':
-            fr = stg.Frame(fchans=8, tchans=4, df=2.0, dt=4.0, fch1=4096.0, seed=11)
+            fr = stg.Frame(fchans=8, tchans=4, df=2.0, dt=4.0, fch1=4096.0, seed=sd(11))
             k = p['kind']
             arrs = [np.array([1.0, 2.0, 3.0]), np.array([0.1, 0.2, 0.3]), np.array([0.0, 0.5, 0.7])]
             if k == 'chi2':
@@ -684,27 +695,27 @@ def replay_seeded(p):
             elif k.startswith('obs'):
                 o = fr.add_noise_from_obs(arrs[0], arrs[1], arrs[2] if 'min' in k else None, share_index=k.endswith('share') and 'noshare' not in k, noise_type='chi2' if 'chi2' in k else 'gaussian')
             elif k == 'rfi_path':
-                o = stg.simple_rfi_path(4090.0, 0.1, 5.0, spread_type='normal', rfi_type='random_walk', seed=5)(fr.ts)
+                o = stg.simple_rfi_path(4090.0, 0.1, 5.0, spread_type='normal', rfi_type='random_walk', seed=sd(5))(fr.ts)
             else:
-                o = stg.periodic_gaussian_t_profile(2.0, 10.0, phase=1.0, pulse_offset_width=1.0, pnum=2, seed=3)(fr.ts)
+                o = stg.periodic_gaussian_t_profile(2.0, 10.0, phase=1.0, pulse_offset_width=1.0, pnum=2, seed=sd(3))(fr.ts)
         else:
             from setigen.voltage import antenna as an, data_stream as ds, polyphase_filterbank as pf
             k = p['kind']
             if k == 'stream':
-                s = ds.DataStream(sample_rate=10.0, seed=21)
+                s = ds.DataStream(sample_rate=10.0, seed=sd(21))
                 s.add_noise(0, 1)
                 o = np.concatenate([s.get_samples(5), s.get_samples(3)])
             elif k == 'antenna':
-                a = an.Antenna(sample_rate=10.0, num_pols=2, seed=22)
+                a = an.Antenna(sample_rate=10.0, num_pols=2, seed=sd(22))
                 [st.add_noise(0, 1) for st in a.streams]
                 o = a.get_samples(6)
             elif k == 'array':
-                a = an.MultiAntennaArray(2, sample_rate=10.0, num_pols=2, delays=[0, 1], seed=23)
+                a = an.MultiAntennaArray(2, sample_rate=10.0, num_pols=2, delays=[0, 1], seed=sd(23))
                 [st.add_noise(0, 1) for t in a.antennas for st in t.streams]
                 [bg.add_noise(0, 1) for bg in a.bg_streams]
                 o = a.get_samples(6)
             else:
-                o = pf.PolyphaseFilterbank(num_taps=2, num_branches=4).estimate_channelized_stds(factor=50, seed=31)
+                o = pf.PolyphaseFilterbank(num_taps=2, num_branches=4).estimate_channelized_stds(factor=50, seed=sd(31))
         outs.append(np.array(o, dtype=float if not np.iscomplexobj(o) else complex))
     return (not np.array_equal(outs[0], outs[1])), f"{p['kind']}: two runs with identical seeds differ (max abs diff {np.max(np.abs(outs[0] - outs[1])) if outs[0].shape == outs[1].shape else 'shape'})"
 
@@ -727,6 +738,11 @@ def main():
     jobs = []
     for k in FRAME_SCEN:
         jobs.append(('job_no_hidden_input', ('frame', k)))
+    for sv in (0, 'np0'):
+        for k in ('chi2', 'obs_gauss_share', 'rfi_path', 'pulse_profile'):
+            jobs.append(('job_no_hidden_input', ('frame', k, sv)))
+        for k in VOLT_SCEN:
+            jobs.append(('job_no_hidden_input', ('voltage', k, sv)))
     for k in VOLT_SCEN:
         jobs.append(('job_no_hidden_input', ('voltage', k)))
     for period in (1, 2, 4, -1):
